@@ -489,6 +489,24 @@ class Interp:
     def _comp(self, node, frame):
         # comprehension over a concrete sequence is evaluated; otherwise opaque
         gens = node.generators
+        if len(gens) == 1 and isinstance(node, ast.DictComp):
+            it = self.eval(gens[0].iter, frame)
+            if isinstance(it, (SeqVal, DictVal)):
+                items = it.items if isinstance(it, SeqVal) else [Const(k) for k in it.items]
+                out = DictVal()
+                sub = Frame(frame.fn, frame.module, {}, closure=frame, cls=frame.cls, self_val=frame.self_val)
+                for item in items:
+                    self.assign(gens[0].target, item, sub, node)
+                    if all(self.truth(self.eval(c, sub)) for c in gens[0].ifs):
+                        k = self.eval(node.key, sub)
+                        v = self.eval(node.value, sub)
+                        if isinstance(k, Const):
+                            out.items[k.value] = v
+                        else:
+                            out.open = True
+                            out.items[f"<{k.key()}>"] = v
+                return out
+            return Sym(f"dictcomp@{self.site(node)}<{it.key()}>", TypeRef(prim="ext:builtins.dict"))
         if len(gens) == 1 and not isinstance(node, ast.DictComp):
             it = self.eval(gens[0].iter, frame)
             if isinstance(it, SeqVal) and isinstance(gens[0].target, ast.Name):
@@ -732,7 +750,8 @@ class Interp:
             ci = self.sym_class(base)
             if ci is not None:
                 if ci.is_enum and attr == "value":
-                    return Sym(f"{base.k}.value")
+                    kinds = {type(v).__name__ for v in ci.enum_members.values()}
+                    return Sym(f"{base.k}.value", TypeRef(prim=kinds.pop()) if len(kinds) == 1 and kinds <= {"str", "int"} else None)
                 types = self.inst_attr_types(ci)
                 if attr in types and ci.find_method(attr) is None:
                     return Sym(f"{base.k}.{attr}", types[attr])
@@ -1148,6 +1167,15 @@ class Interp:
             if b.attr == "super.__init__" and isinstance(recv, Obj):
                 recv.args = list(args)
             return NONE
+        if isinstance(recv, Sym) and b.attr in _MUTATORS:
+            # the receiver is an external mutable object: what this path learnt about it no longer holds
+            rk = recv.key()
+            for k in [k for k in self.memo if rk in k]:
+                del self.memo[k]
+        if b.attr == "wait" and isinstance(recv, Sym):
+            # blocking point: other threads run; what this path knew about shared private fields is stale
+            for k in [k for k in self.memo if "._" in k]:
+                del self.memo[k]
         if isinstance(recv, (Sym, Obj, AbstractExc, SpecialObj)) and self.cfg.record_ext:
             self.emit("EXT", node, recv=recv.key(), method=b.attr, args=[a.key() for a in args],
                       kwargs={k: v.key() for k, v in kwargs.items()}, arg_values=list(args), kwarg_values=dict(kwargs))
@@ -1207,6 +1235,30 @@ class Interp:
             except Exception:  # noqa: BLE001
                 return Unknown("float")
         return Sym(f"float({v.key()})", TypeRef(prim="float"))
+
+    def b_tuple(self, node, frame):
+        return self._seq_ctor(node, frame, "tuple")
+
+    def b_list(self, node, frame):
+        return self._seq_ctor(node, frame, "list")
+
+    def _seq_ctor(self, node, frame, kind):
+        if not node.args:
+            return SeqVal(kind, [])
+        v = self.eval(node.args[0], frame)
+        if isinstance(v, SeqVal):
+            return SeqVal(kind, list(v.items))
+        return Sym(f"{kind}({v.key()})", TypeRef(prim=f"ext:builtins.{kind}"))
+
+    def b_all(self, node, frame):
+        v = self.eval(node.args[0], frame)
+        if isinstance(v, SeqVal) and all(isinstance(i, Const) for i in v.items):
+            return Const(all(i.value for i in v.items))
+        return Const(self.decide_bool(f"all({v.key()})"))
+
+    def b_bytes(self, node, frame):
+        v = self.eval(node.args[0], frame) if node.args else Const(b"")
+        return Sym(f"bytes({v.key()})", TypeRef(prim="bytes"))
 
     def b_bool(self, node, frame):
         v = self.eval(node.args[0], frame) if node.args else FALSE
@@ -1305,6 +1357,18 @@ class Interp:
                     return True
                 if not any(self._is_sub(target, cq) for cq in t.classes):
                     return False
+            if t is not None and t.prim in ("int", "str", "bool", "float", "bytes") and target in self.prog.classes:
+                return False
+            if t is not None and t.prim and t.prim.startswith("ext:") and _ext_class(t.prim[4:]) is not None and target in self.prog.classes:
+                return False
+            if t is not None and t.prim == "bytes":
+                t = TypeRef(prim="ext:builtins.bytes", optional=t.optional)
+            if t is not None and t.prim and t.prim.startswith("ext:"):
+                a_fq = t.prim[4:]
+                if _ext_class(a_fq) is not None and _ext_class(target) is not None:
+                    return self._is_sub(a_fq, target) and not (t.optional and self.sym_is_none(v))
+                if a_fq == target:
+                    return True
             if t is not None and t.prim in ("int", "str", "bool", "float") and target.startswith("builtins."):
                 tn = target[9:]
                 if tn == t.prim or (tn == "int" and t.prim == "bool"):
@@ -1633,6 +1697,10 @@ class Interp:
 
 
 # ---------------------------------------------------------------------------
+_MUTATORS = {"append", "appendleft", "pop", "popleft", "clear", "extend", "add", "remove", "discard", "update", "insert",
+             "put", "put_nowait", "get", "get_nowait", "set", "setdefault", "popitem", "sort", "reverse"}
+
+
 def _load(target):
     t = ast.parse(ast.unparse(target), mode="eval").body
     return t
